@@ -53,7 +53,13 @@ BUILTIN_PROBES = [
 
 def gen_scenario(rng, sid):
     w = world.gen_world(rng, n_top=rng.randint(2, 3))
-    mods = list(w.mods)
+    special = None
+    if rng.random() < 0.3:
+        # a project module that carries one of the names jedi treats specially (process-wide completion
+        # cache keyed by module NAME): whatever a failed query leaves there is seen by every later Script
+        special = rng.choice(['pandas', 'numpy', 'matplotlib', 'tensorflow'])
+        w.set_module(rng, special, 1)
+    mods = [m for m in w.mods if m != special]
     init = [{'op': 'fs', 'kind': 'write', 'path': p, 'content': c, 'mt': MT0} for p, c in sorted(w.files.items())]
     nscripts = rng.randint(3, 6)
     env = rng.choice(['default', 'default', 'explicit', 'mixed'])
@@ -74,6 +80,9 @@ def gen_scenario(rng, sid):
         b = world.gen_probe_buffer(rng, mods, max_probes=rng.randint(1, 4))
         for text, probes in rng.sample(BUILTIN_PROBES, rng.randint(1, 2)):
             b.add(text, probes)
+        if special:
+            b.add('import %s' % special)
+            b.add('%s.Klass' % special, [('complete', special + '.', None), ('complete', special + '.Kl', None)])
         if same:
             b.add('str("x")', [('get_signatures', 'str(', None)])
             b.add('len("x")', [('get_signatures', 'len(', None)])
@@ -164,7 +173,20 @@ def gen_lifecycle(rng, sid, n):
     init = [{'op': 'fs', 'kind': 'write', 'path': p, 'content': c, 'mt': MT0} for p, c in sorted(w.files.items())]
     ops = []
     live = []
+    burst_at = rng.randrange(n) if rng.random() < 0.5 else None
     for j in range(n):
+        if j == burst_at:
+            # many tabs: 12-20 Scripts that all used the helper are alive at once, are discarded
+            # together and finalised by ONE collector run (their helper-side states must all go)
+            bs = ['B%d' % k for k in range(rng.randint(12, 20))]
+            for b in bs:
+                ops.append({'op': 'script', 'sid': b, 'code': 'import ma\nv = ma.VALUE\nv\n"s".upper\n',
+                            'path': None, 'env': 'default', 'project': {'path': '.'}})
+                ops.append({'op': 'probe', 'sid': b, 'p': {'m': 'complete', 'l': 4, 'c': 4}})
+            for b in bs:
+                ops.append({'op': 'drop', 'sid': b})
+            ops.append({'op': 'gc'})
+            ops.append({'op': 'census'})
         sidj = 'L%d' % j
         kind = rng.random()
         if kind < 0.25:
